@@ -524,7 +524,8 @@ class SynthObject(gpp.UGenParameter, metaclass=MetaSynthObject):
         if not self._descendants:
             # for input in self._antecedents:  # ?
             for input in self.inputs:
-                if isinstance(input, UGen) and input._descendants:
+                if isinstance(input, UGen) and input._descendants\
+                and self in input._descendants:
                     input._descendants.remove(self)
                     input._optimize_graph()
             self._synthdef._remove_ugen(self)
